@@ -165,6 +165,17 @@ def run_count_oracle(outcome, tier, seed):
                             c["sched"] = corpus.random_sched(rng)
                         plans.append((fmt, to, [v for v, _ in docs], len(reqs), c))
                         reqs.append({"id": len(reqs), "to": to, "calls": [c]})
+    # YAML streams with documents that have no node at all (an empty document is a document: null), as text
+    for text in (b"---\n---\n", b"---\n# nothing\n", b"a: 1\n---\n", b"---\n...\n---\n1\n", b"---\n---\n---\n", b"a: 1\n---\n---\nb: 2\n",
+                 b"--- ~\n---\n--- null\n", b"# head\n---\n\n---\n- x\n...\n---\n"):
+        vals = gen.read_documents(text, "yaml")
+        for to in STREAMING:
+            for mode, sched in (("slice", None), ("reader", {"kind": "full"}), ("reader", {"kind": "fixed", "n": 1}), ("reader", corpus.random_sched(rng))):
+                c = {"input": shared.hx(text), "from": "yaml", "mode": mode}
+                if sched:
+                    c["sched"] = sched
+                plans.append(("yaml", to, vals, len(reqs), c))
+                reqs.append({"id": len(reqs), "to": to, "calls": [c]})
     resps = common.harness_batch(reqs, timeout=900)
     for fmt, to, vals, i, c in plans:
         got = shared.session_result(resps[i])
